@@ -24,6 +24,13 @@ func dumpRef(which string, max int) {
 			}
 		}
 		cmp = ref.DebianCompare
+	case "semver":
+		for _, s := range gen.Uniq(dumpSemverCandidates()) {
+			if _, _, ok := ref.SemverParts(s); ok {
+				strs = append(strs, s)
+			}
+		}
+		cmp = ref.SemverCompare
 	default:
 		fmt.Fprintln(os.Stderr, "unknown model", which)
 		os.Exit(2)
@@ -42,4 +49,19 @@ func dumpRef(which string, max int) {
 			fmt.Fprintf(w, "%s %s %d\n", a, b, c)
 		}
 	}
+}
+
+func dumpSemverCandidates() []string {
+	ids := []string{"0", "1", "2", "10", "99999999999999999", "a", "alpha", "beta", "rc", "A", "a-b", "-5", "-", "x-", "0a", "00a", "x"}
+	var out []string
+	for _, core := range []string{"1.0.0", "1.0.1", "2.0.0"} {
+		out = append(out, core, core+"+b")
+		for _, a := range ids {
+			out = append(out, core+"-"+a)
+			for _, b := range ids {
+				out = append(out, core+"-"+a+"."+b)
+			}
+		}
+	}
+	return out
 }
